@@ -103,6 +103,13 @@ func main() {
 			batch{Idx: 9012, Kind: "canon-emu-rehome", NGPU: 4},
 			batch{Idx: 9013, Kind: "canon-tmagic-rehome", NGPU: 2},
 			batch{Idx: 9014, Kind: "canon-dma-rehome", NGPU: 2},
+			batch{Idx: 9015, Kind: "canon-emu-freealloc", NGPU: 2},
+			batch{Idx: 9016, Kind: "canon-tmagic-freealloc", NGPU: 1},
+			batch{Idx: 9017, Kind: "canon-dma-freealloc", NGPU: 1},
+			batch{Idx: 9018, Kind: "canon-dma-freealloc", NGPU: 2},
+			batch{Idx: 9019, Kind: "canon-dma-freealloc-buddy", NGPU: 1},
+			batch{Idx: 9020, Kind: "canon-emu-freealloc-buddy", NGPU: 1},
+			batch{Idx: 9021, Kind: "canon-tmagic-freealloc-buddy", NGPU: 1},
 		)
 	}
 	// slow (timing) batches first so that the tail of the run is short
@@ -157,6 +164,7 @@ func main() {
 			"non-trivial = distinct (path, direction, type, offset within page, length, boundary class) of a copy whose range crosses a 64-byte line, a page or a GPU boundary",
 		Assumptions: []string{
 			"page placement (Distribute/Remap) is chosen before the first byte is copied and changed again in mid-history by the re-homing steps: Remap/Distribute give the pages new frames and move no data, so the shadow treats a re-homed range as undefined until it has been rewritten completely (the generator does that at once, by H2D pieces and/or the driver's device copy kernel; the model refuses any read of a still undefined byte)",
+			"free / re-allocate steps run on a context of their own whose buffers come and go (every op inside the requested extent of one live buffer); a freed buffer's bytes vanish, a new buffer's bytes are undefined until written; with the default allocator a freed frame is practically never handed out again on the unchanged tree, so frame re-use is exercised by the buddy-allocator canonical children (seed-demo history only) - the DMA one reports the stale-L2-lines finding",
 			"timing platform with kernels (DMA path): Remap/Distribute do not shoot down the GPUs' TLBs (reported as a finding by canon-dma-rehome), so the SEEDED steps there re-home only pages that no kernel has touched yet (filled and read back by host copies; first kernel use after the re-homing)",
 			"copies and kernels outstanding at the same time on different queues touch disjoint byte ranges; within a queue any overlap is allowed (FIFO)",
 			"kernels are dword-aligned element-wise add/mul/xor kernels (vlib/kern) whose effect on the shadow is defined by kern.Op.Apply",
@@ -165,48 +173,62 @@ func main() {
 		},
 		MinNontrivial: c.N(800, 20000),
 		MinCounters: map[string]int64{
-			"generated_copy_ops|emu":                                                    int64(c.N(1900, 95000)),
-			"generated_copy_ops|dma":                                                    int64(c.N(140, 4800)),
-			"generated_copy_ops|tmagic":                                                 int64(c.N(25, 400)),
-			"d2h_results_compared":                                                      int64(c.N(3000, 100000)),
-			"copies_crossing_nonadjacent_pages_unaligned|h2d":                           int64(c.N(200, 5000)),
-			"copies_crossing_gpu_boundary":                                              int64(c.N(100, 3000)),
-			"kernels_launched|dma":                                                      int64(c.N(30, 500)),
-			"d2h_overlapping_last_kernel_write":                                         int64(c.N(30, 500)),
-			"flush_requests_sent":                                                       int64(c.N(50, 1000)),
-			"copies_whose_last_reply_was_a_flush":                                       int64(c.N(3, 30)),
-			"dma_sub_requests_checked":                                                  int64(c.N(5000, 100000)),
-			"driver_copy_commands_checked":                                              int64(c.N(300, 5000)),
-			"driver_commands_chunking_checked":                                          int64(c.N(200, 4000)),
-			"driver_requests_linked_to_dma":                                             int64(c.N(300, 5000)),
-			"kernels_enqueued_while_other_context_has_copies_pending":                   1,
-			"copy_commands_overlapping_a_running_kernel":                                int64(c.N(20, 300)),
-			"canonical_cases|flushlast-same-gpu":                                        1,
-			"canonical_cases|emu":                                                       100,
-			"canonical_cases|flushlast":                                                 5,
-			"canonical_cases|contain-slack-d2h":                                         1,
-			"canonical_cases|samepid":                                                   1,
-			"canonical_cases|reorder":                                                   4,
-			"dma_responses_out_of_issue_order":                                          15,
-			"multi_page_copies_issued_next_to_an_undrained_kernel":                      int64(c.N(10, 150)),
-			"canonical_cases|stale":                                                     6,
-			"canonical_cases|rehome-emu":                                                21,
-			"canonical_cases|rehome-tmagic":                                             7,
-			"canonical_cases|rehome-dma":                                                3,
-			"canonical_cases|rehome-dma-used-by-same-gpu":                               1,
-			"rehoming_steps_of_touched_pages|emu":                                       int64(c.N(60, 3000)),
-			"rehoming_steps_of_host_filled_pages|dma":                                   int64(c.N(8, 150)),
-			"rehoming_steps_of_host_filled_pages|tmagic":                                int64(c.N(7, 30)),
-			"kernels_rereading_a_rehomed_page|emu":                                      int64(c.N(300, 15000)),
-			"kernels_touching_a_rehomed_page|dma":                                       int64(c.N(15, 300)),
-			"d2h_of_rehomed_pages_after_kernel_write|emu":                               int64(c.N(300, 15000)),
-			"d2h_of_rehomed_pages_after_write_by_kernel_on_gpu_that_used_old_frame|emu": int64(c.N(200, 10000)),
-			"d2h_of_rehomed_pages_after_kernel_write|dma":                               int64(c.N(20, 300)),
-			"d2h_of_rehomed_pages|tmagic":                                               int64(c.N(20, 100)),
-			"rehome_motifs_with_grids_of_64_or_more_work_groups|emu":                    int64(c.N(20, 1000)),
-			"rehome_motifs_with_small_grids_repeated|emu":                               int64(c.N(20, 1000)),
-			"rehomed_ranges_first_written_by_a_kernel":                                  int64(c.N(20, 1000)),
-			"kernels_copying_a_rehomed_range_elsewhere":                                 int64(c.N(10, 500)),
+			"generated_copy_ops|emu":                                                      int64(c.N(1900, 95000)),
+			"generated_copy_ops|dma":                                                      int64(c.N(140, 4800)),
+			"generated_copy_ops|tmagic":                                                   int64(c.N(25, 400)),
+			"d2h_results_compared":                                                        int64(c.N(3000, 100000)),
+			"copies_crossing_nonadjacent_pages_unaligned|h2d":                             int64(c.N(200, 5000)),
+			"copies_crossing_gpu_boundary":                                                int64(c.N(100, 3000)),
+			"kernels_launched|dma":                                                        int64(c.N(30, 500)),
+			"d2h_overlapping_last_kernel_write":                                           int64(c.N(30, 500)),
+			"flush_requests_sent":                                                         int64(c.N(50, 1000)),
+			"copies_whose_last_reply_was_a_flush":                                         int64(c.N(3, 30)),
+			"dma_sub_requests_checked":                                                    int64(c.N(5000, 100000)),
+			"driver_copy_commands_checked":                                                int64(c.N(300, 5000)),
+			"driver_commands_chunking_checked":                                            int64(c.N(200, 4000)),
+			"driver_requests_linked_to_dma":                                               int64(c.N(300, 5000)),
+			"kernels_enqueued_while_other_context_has_copies_pending":                     1,
+			"copy_commands_overlapping_a_running_kernel":                                  int64(c.N(20, 300)),
+			"canonical_cases|flushlast-same-gpu":                                          1,
+			"canonical_cases|emu":                                                         100,
+			"canonical_cases|flushlast":                                                   5,
+			"canonical_cases|contain-slack-d2h":                                           1,
+			"canonical_cases|samepid":                                                     1,
+			"canonical_cases|reorder":                                                     4,
+			"dma_responses_out_of_issue_order":                                            15,
+			"multi_page_copies_issued_next_to_an_undrained_kernel":                        int64(c.N(10, 150)),
+			"canonical_cases|stale":                                                       6,
+			"canonical_cases|freealloc-emu":                                               6,
+			"canonical_cases|freealloc-dma":                                               12,
+			"canonical_cases|freealloc-tmagic":                                            6,
+			"canonical_cases|freealloc-dma-buddy":                                         1,
+			"frees_of_kernel_written_buffers|emu":                                         int64(c.N(60, 3000)),
+			"frees_of_kernel_written_buffers|dma":                                         int64(c.N(40, 500)),
+			"frees|tmagic":                                                                int64(c.N(15, 60)),
+			"h2d_into_new_buffers_before_the_next_launch|emu":                             int64(c.N(30, 1500)),
+			"h2d_into_new_buffers_before_the_next_launch|dma":                             int64(c.N(20, 300)),
+			"reallocations_receiving_a_previously_used_frame|dma":                         1,
+			"reallocations_receiving_a_previously_used_frame|emu":                         1,
+			"reallocations_receiving_a_previously_used_frame|tmagic":                      1,
+			"h2d_into_reused_frames_of_kernel_written_buffers_before_the_next_launch|dma": 1,
+			"frame_ownership_audits":                                                      int64(c.N(200, 5000)),
+			"canonical_cases|rehome-emu":                                                  21,
+			"canonical_cases|rehome-tmagic":                                               7,
+			"canonical_cases|rehome-dma":                                                  3,
+			"canonical_cases|rehome-dma-used-by-same-gpu":                                 1,
+			"rehoming_steps_of_touched_pages|emu":                                         int64(c.N(60, 3000)),
+			"rehoming_steps_of_host_filled_pages|dma":                                     int64(c.N(8, 150)),
+			"rehoming_steps_of_host_filled_pages|tmagic":                                  int64(c.N(7, 30)),
+			"kernels_rereading_a_rehomed_page|emu":                                        int64(c.N(300, 15000)),
+			"kernels_touching_a_rehomed_page|dma":                                         int64(c.N(15, 300)),
+			"d2h_of_rehomed_pages_after_kernel_write|emu":                                 int64(c.N(300, 15000)),
+			"d2h_of_rehomed_pages_after_write_by_kernel_on_gpu_that_used_old_frame|emu":   int64(c.N(200, 10000)),
+			"d2h_of_rehomed_pages_after_kernel_write|dma":                                 int64(c.N(20, 300)),
+			"d2h_of_rehomed_pages|tmagic":                                                 int64(c.N(20, 100)),
+			"rehome_motifs_with_grids_of_64_or_more_work_groups|emu":                      int64(c.N(20, 1000)),
+			"rehome_motifs_with_small_grids_repeated|emu":                                 int64(c.N(20, 1000)),
+			"rehomed_ranges_first_written_by_a_kernel":                                    int64(c.N(20, 1000)),
+			"kernels_copying_a_rehomed_range_elsewhere":                                   int64(c.N(10, 500)),
 		},
 	})
 }
@@ -221,10 +243,16 @@ var watchdog = func() time.Duration {
 }()
 
 func (b batch) pathName() string {
+	return kindPath(b.Kind)
+}
+
+// kindPath: copy path of a batch kind (emu | tmagic | dma).
+func kindPath(kind string) string {
+	kind = strings.TrimSuffix(kind, "-buddy")
 	switch {
-	case b.Kind == "emu" || strings.HasPrefix(b.Kind, "canon-emu"):
+	case kind == "emu" || strings.HasPrefix(kind, "canon-emu") || strings.HasPrefix(kind, "emu-"):
 		return "emu"
-	case b.Kind == "tmagic" || strings.HasPrefix(b.Kind, "canon-tmagic"):
+	case kind == "tmagic" || strings.HasPrefix(kind, "canon-tmagic") || strings.HasPrefix(kind, "tmagic-"):
 		return "tmagic"
 	}
 	return "dma"
